@@ -59,7 +59,7 @@ def strategy_case(draw: Any) -> Dict[str, Any]:
         case["mode"] = "valid"
     # decoys: files named like this run's reports (and their ezodf backups) lying in the working directory, in $HOME and in a
     # sibling of the output directory; a stale copy inside the output directory itself may be replaced, these may not be touched
-    case["decoys"] = draw(st.sampled_from(["none", "cwd", "home", "outdir", "outdir", "all", "all"]))
+    case["decoys"] = draw(st.sampled_from(["none", "cwd", "home", "outdir", "outdir", "all", "all", "log_is_file"]))
     # environment switches rp2 reads: LOG_LEVEL (documented in README.dev.md) and RP2_ENABLE_PROFILER (rp2_main)
     case["env"] = draw(st.sampled_from([{}, {}, {}, {"LOG_LEVEL": "DEBUG"}, {"RP2_ENABLE_PROFILER": "1"}, {"LOG_LEVEL": "DEBUG", "RP2_ENABLE_PROFILER": "1"}]))
     return case
@@ -124,6 +124,13 @@ def plant_decoys(case: Dict[str, Any], folder: str, outdir: str) -> Dict[str, Tu
     mode = case.get("decoys") or "none"
     if mode == "none":
         return {}
+    if mode == "log_is_file":
+        # ./log cannot be created: whatever rp2 does then (today it stops at import), it must not start writing elsewhere
+        path = os.path.join(folder, "log")
+        with open(path, "wb") as handle:
+            handle.write(b"not a directory\n")
+        os.utime(path, ns=(1_600_000_000_000_000_000, 1_600_000_000_000_000_000))
+        return {path: (_sha(path) or "", os.stat(path).st_mtime_ns)}
     label = cli.method_label(case.get("method"), case.get("schedule"), case["country"])
     names = cli.expected_report_names(case["country"], label, case.get("prefix") or "")
     names += [n + ".bak" for n in names] + ["rp2_full_report.ods", "input.ods.bak"]
@@ -164,7 +171,9 @@ def evaluate(case: Dict[str, Any]) -> Outcome:
     try:
         log_path = os.path.join(folder, "audit.jsonl")
         planted = plant_decoys(case, folder, os.path.join(folder, "out"))
-        home_env = {"HOME": os.path.join(folder, "home")} if planted else {}
+        home_env = {"HOME": os.path.join(folder, "home"), "TMPDIR": os.path.join(folder, "tmp")} if planted else {}
+        if planted:
+            os.makedirs(os.path.join(folder, "tmp"), exist_ok=True)
         home_env.update(case.get("env") or {})
         for key in case.get("env") or {}:
             out.classes.add(f"env_{key}")
@@ -211,9 +220,12 @@ def evaluate(case: Dict[str, Any]) -> Outcome:
             if extra_files:
                 out.fail("unexpected_file_in_output_directory", f"{label}: besides its reports {sorted(expected_names)} the run left {extra_files} in the output directory")
                 return out
+        if planted and os.path.isdir(os.path.join(folder, "tmp")) and os.listdir(os.path.join(folder, "tmp")):
+            out.fail("file_written_to_temp_directory", f"{label}: files left in $TMPDIR: {sorted(os.listdir(os.path.join(folder, 'tmp')))}")
+            return out
         # anything new in the work folder besides inputs, audit log, output dir and ./log ?
         allowed = {"audit.jsonl", "log", os.path.basename(outdir), "input.ini", "input.ods", "input.xlsx", "out_base", "out_fault"}
-        allowed |= {"home", "out_sibling"} | {os.path.basename(p) for p in planted if os.path.dirname(p) == folder}
+        allowed |= {"home", "out_sibling", "tmp"} | {os.path.basename(p) for p in planted if os.path.dirname(p) == folder}
         strays = sorted(set(os.listdir(folder)) - allowed)
         if strays:
             out.fail("stray_file_in_working_directory", f"{label}: unexpected entries in the working directory: {strays}")
